@@ -104,6 +104,13 @@ impl<'de> Deserialize<'de> for ThresholdPart {
             where
                 E: de::Error,
             {
+                if v.is_nan() || v.is_infinite() || v < 0.0 {
+                    return Err(serde::de::Error::invalid_value(
+                        Unexpected::Float(v),
+                        &"a positive number",
+                    ));
+                }
+
                 Ok(ThresholdPart(Some(NtpDuration::from_seconds(v))))
             }
 
